@@ -125,6 +125,20 @@ type vcConn struct {
 	bound   []vcBound
 	queries int
 	execs   int
+	echo    bool // SELECT ?: the result is one row holding the bound values (untyped expressions)
+}
+
+func (c *vcConn) echoTable() {
+	if !c.echo {
+		return
+	}
+	t := &vcTable{rows: [][]vcCell{{}}}
+	for i, b := range c.bound {
+		t.cols = append(t.cols, "?"+strconv.Itoa(i+1))
+		t.decl = append(t.decl, "")
+		t.rows[0] = append(t.rows[0], b.cell)
+	}
+	c.table = t
 }
 
 var vcCur *vcConn // the connection the stub driver / the Rows models serve
@@ -158,6 +172,7 @@ func (c *vcConn) QueryContext(ctx context.Context, query string, args ...any) (*
 		return vcNativeDB().QueryContext(ctx, query, args...)
 	}
 	c.capture(args)
+	c.echoTable()
 	vcRows = &vcRowsState{t: c.table, token: &sql.Rows{}}
 	for range c.table.decl {
 		vcRows.cts = append(vcRows.cts, &sql.ColumnType{})
@@ -280,6 +295,7 @@ func (*vcDStmt) ExecContext(ctx context.Context, a []driver.NamedValue) (driver.
 }
 func (*vcDStmt) QueryContext(ctx context.Context, a []driver.NamedValue) (driver.Rows, error) {
 	vcCur.captureNamed(a)
+	vcCur.echoTable()
 	return &vcDRows{t: vcCur.table}, nil
 }
 func (r *vcDRows) Columns() []string { return append([]string{}, r.t.cols...) }
@@ -607,7 +623,6 @@ func (x *vcReadCtx) checkTypes(types []string) {
 }
 
 func vcRunRead(t *vcTable, declLower []string, marshal bool) {
-	x := &vcReadCtx{t: t, declLower: declLower}
 	conn := &vcConn{table: t}
 	stmt := &proto.Statement{Sql: "SELECT * FROM t"}
 	q, err := db.VerifC30QueryStmt(context.Background(), stmt, conn)
@@ -622,7 +637,12 @@ func vcRunRead(t *vcTable, declLower []string, marshal bool) {
 			verifAssert("C30-stub-agrees-with-sqlite", vcSameRows(real, q))
 		}
 	}
+	vcCheckRead(t, declLower, q, marshal)
+}
 
+// vcCheckRead: oracle 2 over a whole result, in the four forms the API offers.
+func vcCheckRead(t *vcTable, declLower []string, q *proto.QueryRows, marshal bool) {
+	x := &vcReadCtx{t: t, declLower: declLower}
 	for _, blobArray := range []bool{false, true} {
 		// array form
 		rows, err := encoding.NewRowsFromQueryRows(q, blobArray)
@@ -750,8 +770,12 @@ func VerifC30ReadWide() {
 	tier := verifTier()
 	ncols, nrows := 2, 1
 	if tier > 0 {
-		ncols += verifChoice("cols", 2)
-		nrows += verifChoice("rows", 2)
+		switch verifChoice("shape", 3) { // 2x1, 3x1, 2x2 (columns x rows)
+		case 1:
+			ncols = 3
+		case 2:
+			nrows = 2
+		}
 	}
 	t := &vcTable{}
 	var lower []string
@@ -1097,15 +1121,22 @@ var vcRealBindHook func(params []*proto.Parameter) (cells []vcCell, ok bool)
 // vcBindThrough sends the parameters through the real statement runner (query or execute path)
 // and returns what reached the connection.
 func vcBindThrough(params []*proto.Parameter, exec bool) []vcBound {
-	conn := &vcConn{table: &vcTable{cols: []string{"x"}, decl: []string{""}}}
+	bound, _ := vcBindThroughEcho(params, exec, false)
+	return bound
+}
+
+func vcBindThroughEcho(params []*proto.Parameter, exec, echo bool) ([]vcBound, *proto.QueryRows) {
+	conn := &vcConn{table: &vcTable{cols: []string{"x"}, decl: []string{""}}, echo: echo}
 	stmt := &proto.Statement{Sql: "INSERT INTO t VALUES(?)", Parameters: params}
+	var q *proto.QueryRows
 	if exec {
 		resp, err := db.VerifC30ExecuteStmt(context.Background(), stmt, conn)
 		verifAssert("C30-execute-succeeds", err == nil)
 		verifAssert("C30-execute-has-no-error", resp.GetError() == "")
 		verifAssert("C30-execute-reached-the-connection-once", conn.execs == 1 && conn.queries == 0)
 	} else {
-		q, err := db.VerifC30QueryStmt(context.Background(), stmt, conn)
+		var err error
+		q, err = db.VerifC30QueryStmt(context.Background(), stmt, conn)
 		verifAssert("C30-query-succeeds", err == nil)
 		verifAssert("C30-query-has-no-error", q.Error == "")
 		verifAssert("C30-query-reached-the-connection-once", conn.queries == 1 && conn.execs == 0)
@@ -1120,7 +1151,26 @@ func vcBindThrough(params []*proto.Parameter, exec bool) []vcBound {
 			verifAssert("C30-stub-agrees-with-sqlite", same)
 		}
 	}
-	return conn.bound
+	return conn.bound, q
+}
+
+// VerifC30RoundTrip: a JSON value sent as the parameter of SELECT ? comes back, in every result
+// form, as the value that was sent (SQLite in the middle: the bound value is the value of the
+// untyped result column). Natively the witness is also bound on a real db.DB.
+func VerifC30RoundTrip() {
+	tier := verifTier()
+	v := vcChooseValue("v", tier)
+	w := vcExpect(v)
+	if w.mode != weBind {
+		return // rejected / ambiguous values: VerifC30Param
+	}
+	p, err := makeParameter("", vcGo(v))
+	verifAssert("C30-bindable-value-is-accepted", err == nil)
+	_, q := vcBindThroughEcho([]*proto.Parameter{p}, false, true)
+	want := &vcTable{cols: []string{"?1"}, decl: []string{""}, rows: [][]vcCell{{w.cell}}}
+	verifAssert("C30-one-value-list-per-row", len(q.Values) == 1)
+	vcCheckRead(want, []string{""}, q, tier > 0)
+	verifReach("round-trip")
 }
 
 // VerifC30Param: one JSON value -> makeParameter -> statement runner -> bound value.
